@@ -339,6 +339,9 @@ def rewrite_body(text, counts, opts):
     # D3b parameter pattern `_: T` -> `_p0: T` (Verus wants identifiers as parameters)
     text, n = re.subn(r'([(,]\s*)_(\s*:)', r'\1_p0\2', text)
     counts.hit('D3_closure_underscore', n)
+    # D15 module paths: everything lives in one crate root in the generated file
+    text, n = re.subn(r'\b(?:super|crate::thrift|crate)::(?=[A-Za-z_])', '', text)
+    counts.hit('D15_module_path_flattened', n)
     if opts.get('async'):
         text, n1 = re.subn(r'\basync\s+fn\b', 'fn', text)
         text, n2 = re.subn(r'\s*\.await\b', '', text)
@@ -533,6 +536,8 @@ def parse_opts(words):
             opts['no_name_return'] = True
         elif w.startswith('use='):
             opts['use'] = w[4:]
+        elif w.startswith('exec_const='):
+            opts['exec_const'] = w[len('exec_const='):]
         else:
             raise ValueError('unknown option ' + w)
     return opts
@@ -580,6 +585,7 @@ def assemble(unit_path, repo, vf_dir):
 
     unit_subst = []
     defs = {}
+    expansions = {}
     while i < len(lines):
         ln = lines[i]
         s = ln.strip()
@@ -609,6 +615,26 @@ def assemble(unit_path, repo, vf_dir):
                 buf.append(lines[i])
                 i += 1
             defs[name] = buf
+        elif s.startswith('%expand'):
+            # D7b: a macro_rules! macro defined in the current %file, with a single arm whose
+            # parameters are `$x:expr...`, is expanded textually from its definition (re-read now)
+            mname = s.split()[1]
+            mm = re.search(r'macro_rules!\s*' + re.escape(mname) + r'\s*\{', mask)
+            if not mm:
+                raise Lost('macro ' + mname + ' not found')
+            ob = mm.end() - 1
+            cb = match_close(src, ob)
+            arm = src[ob + 1:cb]
+            pm = re.match(r'\s*\(([^)]*)\)\s*=>\s*\{', arm)
+            if not pm:
+                raise Lost('macro %s: unsupported shape' % mname)
+            params = re.findall(r'\$(\w+)\s*:\s*\w+', pm.group(1))
+            bo = arm.index('{', pm.end() - 1)
+            bc = match_close(arm, bo)
+            if arm[bc + 1:].strip().strip(';').strip():
+                raise Lost('macro %s: more than one arm' % mname)
+            expansions[mname] = (params, arm[bo + 1:bc])
+            i += 1
         elif s.startswith('%subst'):
             # %subst /regex/ => replacement   (unit-wide textual substitution, reported as Dx)
             m = re.match(r'%subst\s+/(.*)/\s*=>\s*(.*)$', s)
@@ -633,6 +659,14 @@ def assemble(unit_path, repo, vf_dir):
             text = re.sub(r'#\[derive\(([^)]*)\)\]\s*\n', fix_derive, text)
             text = re.sub(r'(?m)^[ \t]*#\[(non_exhaustive|cfg_attr[^\]]*)\]\s*\n', '', text)
             text = re.sub(r'pub\(crate\)', 'pub', text)
+            if kind == 'const' and opts.get('exec_const'):
+                # D14b: `const N: T = E;` -> `exec const N: T ensures N == <value from the .vu> { E }`
+                # (E stays the real expression; the value is what the protocol document prescribes)
+                mm = re.match(r'(?s)\s*(?:pub\s+)?const\s+(\w+)\s*:\s*([^=]+?)\s*=\s*(.*);\s*$', text)
+                if not mm:
+                    raise Lost('const %s: unsupported shape' % name)
+                text = 'pub exec const %s: %s ensures %s == %s { %s }' % (mm.group(1), mm.group(2), mm.group(1), opts['exec_const'], mm.group(3))
+                A.counts.hit('D14_static_to_const')
             if kind == 'static':
                 # D14: a `static` of plain data becomes a `const` (same value; Verus needs an
                 # ensures-annotated `exec static` otherwise)
@@ -749,6 +783,17 @@ def assemble(unit_path, repo, vf_dir):
             if not opts.get('no_name_return'):
                 text_sig, rty = name_return(text_sig, A.counts)
             # elided `'_`/no lifetime stays; D5 handled by the %in replacement header
+            for mname, (mparams, mbody) in expansions.items():
+                def expand(args, mparams=mparams, mbody=mbody):
+                    parts = [x.strip() for x in split_top_commas(args)]
+                    if len(parts) != len(mparams):
+                        raise Lost('macro %s: arity mismatch' % mname)
+                    out = mbody
+                    for pn, av in sorted(zip(mparams, parts), key=lambda t: -len(t[0])):
+                        out = out.replace('$' + pn, '(' + av + ')' if not re.match(r'^[\w.]+$', av) else av)
+                    return '{' + out + '}'
+                body, n = _replace_macro_calls(body, mname, expand)
+                A.counts.hit('D7b_local_macro_expanded', n)
             body = rewrite_body(body, A.counts, opts)
             for pat, rep in opts.get('subst', []):
                 body, n1 = re.subn(pat, rep, body)
